@@ -132,7 +132,7 @@ func checkFailConds(w *World, r *Report, rule string, f *ssa.Function, wants []w
 		case "":
 			okG = g == ""
 		case "notlast":
-			okG = regexp.MustCompile(`^!\(.* == \(len\(p0\) - 1\)\)$`).MatchString(g) || regexp.MustCompile(`^\(.* != \(len\(p0\) - 1\)\)$`).MatchString(g) || regexp.MustCompile(`^\(.* < \(len\(p0\) - 1\)\)$`).MatchString(g) || g == ""
+			okG = regexp.MustCompile(`^!\(.* == \(len\(p0\) - 1\)\)$`).MatchString(g) || regexp.MustCompile(`^\(.* != \(len\(p0\) - 1\)\)$`).MatchString(g) || regexp.MustCompile(`^\(.* < \(len\(p0\) - 1\)\)$`).MatchString(g) || regexp.MustCompile(`^\(\(.* \+ 1\) < len\(p0\)\)$`).MatchString(g) || g == ""
 		}
 		if !okG {
 			r.Violate(rule, key, w.instrPos(fcs[found].At), "the rejecting test `"+wc.core+"` is only applied when "+g+": inputs outside that guard are accepted unchecked")
@@ -176,6 +176,16 @@ func mustPassChecked(w *World, r *Report, rule string, f *ssa.Function, target *
 func rulesC07(w *World, r *Report) {
 	r.Rule("C07.R1", "must-pass-through (checked): NewHeader passes validateAggregationMethod, validateXFilesFactor, fillOffset and ArchiveInfoList.validate; ParseArchiveInfoList passes fillOffset and validate; Header.TakeFrom passes both scalar validators and validate; Create passes NewHeader; Open passes readHeader which passes Header.TakeFrom; all reach the one ArchiveInfoList.validate", 11)
 	ruleCreatePassesLayout(w, r, "C07.R1")
+	// the six-way validation sees the whole 4-byte header field: the type it is converted to is at least 32 bits wide
+	if o := w.LibP.Types.Scope().Lookup("AggregationMethod"); o != nil {
+		bt, _ := o.Type().Underlying().(*types.Basic)
+		okW := bt != nil && intWidth(bt) >= 32
+		name := "?"
+		if bt != nil {
+			name = bt.Name()
+		}
+		r.Check(okW, "C07.R1", "AggregationMethod:holds-the-header-field", "aggregationmethod.go", "AggregationMethod is "+name+" (at least 32 bits)", "AggregationMethod is "+name+": Header.TakeFrom converts the 32-bit header field to it before validating, so a field such as 0x00000101 is cut to 1 and accepted as a storable method")
+	}
 	ruleLayoutOrderKept(w, r, "C07.R1", "ParseArchiveInfoList", "NewHeader", "Header.TakeFrom", "Create")
 	ruleHeaderFirstRead(w, r, "C07.R1")
 	vAgg := fn(w.Lib, "validateAggregationMethod")
@@ -985,6 +995,27 @@ func rulesC03(w *World, r *Report) {
 		a1 := ex.expr(c.Common().Args[1])
 		r.Check(a1 == "p2", "C03.R4", "UpdatePointForArchive:best-archive-arg", w.instrPos(c), "the best archive is chosen for the point's own time", "findBestArchive is called with "+a1+" instead of the point's timestamp: points at a retention boundary are routed to the wrong archive")
 	}
+	// an accepted single write always stores its point and always hands it to the coarser levels: no success return of
+	// UpdatePointForArchive is reached without putPointAt and propagateChain (a write that is "already there" still
+	// has to re-establish the consolidated values, which another write may have replaced since)
+	{
+		idx := errResultIndex(up1)
+		bad := ""
+		for _, callee := range []string{"Whisper.putPointAt", "Whisper.propagateChain"} {
+			g := fn(w.Lib, callee)
+			if g == nil {
+				continue
+			}
+			ret := pathAvoidingTo(up1.Blocks[0], func(in ssa.Instruction) bool {
+				c, ok := in.(ssa.CallInstruction)
+				return ok && c.Common().StaticCallee() == g
+			}, func(ret *ssa.Return) bool { return idx >= 0 && isNilConst(ret.Results[idx]) })
+			if ret != nil && bad == "" {
+				bad = "the success return at " + w.instrPos(ret) + " can be reached without " + callee
+			}
+		}
+		r.Check(bad == "", "C03.R4", "UpdatePointForArchive:writes-and-propagates", w.pos(up1.Pos()), "every success return passes putPointAt and propagateChain", "UpdatePointForArchive: "+bad+": the write is reported done while the slot, or the coarser slots that cover it, keep what an earlier write left")
+	}
 	// a named archive is the archive written: the id changes only when ArchiveIDBest was asked for
 	{
 		var used []ssa.Value
@@ -1065,6 +1096,38 @@ func rulesC03(w *World, r *Report) {
 	ruleExtractPointsDD(w, r, "C03.R3", extract)
 	r.Rule("C03.R5", "no in-range point is lost inside the per-archive writer: archiveUpdateMany aligns and stores every point of the batch it is given", 2)
 	ruleWriterWritesAll(w, r, "C03.R5")
+	// of two points of a batch that share a time the one supplied last wins, whatever their values are: the store that
+	// replaces the earlier value is guarded by the equal-time test only
+	if ap := fn(w.Lib, "ArchiveInfo.alignPoints"); ap != nil {
+		bad := ""
+		n := 0
+		eachInstr(ap, func(in ssa.Instruction) {
+			st, ok := in.(*ssa.Store)
+			if !ok {
+				return
+			}
+			_, fld, isFld := fieldAddrOf(st.Addr)
+			if !isFld || fld != "Value" {
+				return
+			}
+			fa, _ := st.Addr.(*ssa.FieldAddr)
+			if fa == nil {
+				return
+			}
+			if _, isIA := fa.X.(*ssa.IndexAddr); !isIA {
+				return // the literal being built, not an element already in the result
+			}
+			n++
+			for _, g := range blockGuards(w, st.Block()) {
+				if strings.Contains(g, ".Value") || strings.Contains(g, "IsNaN") {
+					bad = "the replacement at " + w.instrPos(st) + " also depends on " + shortExpr(g)
+				}
+			}
+		})
+		if n > 0 {
+			r.Check(bad == "", "C03.R5", "ArchiveInfo.alignPoints:last-wins", w.pos(ap.Pos()), "a later point of the same time replaces the earlier one unconditionally", "alignPoints: "+bad+": which of two points of one slot is stored then depends on their values, not on the order they were supplied in")
+		}
+	}
 	ruleLoopGoesOn(w, r, "C03.R5", "Whisper.UpdatePointsForArchive:every-archive", firstLoopCall(upm, extract), "an archive that gets no point of the batch is skipped, not the coarser archives after it")
 	ruleLoopGoesOn(w, r, "C03.R5", "Whisper.archiveUpdateMany:every-point", firstLoopCall(aum, fn(w.Lib, "Whisper.putPointAt")), "every aligned point of the batch is stored")
 	// R4 routing in UpdatePointsForArchive
